@@ -71,6 +71,11 @@ def run_histories(spec, acc, configs, prof, monitors, n_hist, jobs,
             acc.count('histories')
         except Exception as err:
             acc.count('harness_errors')
+            if isinstance(err, (TypeError, NameError, AttributeError,
+                                KeyError, IndexError)):
+                # a bug of the generator, not bad luck: the histories it was
+                # meant to produce were not produced
+                acc.count('harness_programming_errors')
             acc.notes.append('harness error in history %d of shard %d (%s): '
                              '%s: %s | %s' % (
                                  i, shard, cfg, type(err).__name__,
@@ -121,6 +126,11 @@ def harness_health(acc, max_error_ratio=0.2):
                    'the property' % (crashed, jobs, sorted(
                        acc.sets.get('python_exceptions', []))[:6]))
 
+    bugs = acc.counters.get('harness_programming_errors', 0)
+    if bugs:
+        acc.inconc('%d histories ended in a programming error of the '
+                   'harness (see notes): part of the workload was not '
+                   'produced' % bugs)
     errs = acc.counters.get('harness_errors', 0)
     hist = acc.counters.get('histories', 0)
     if errs and errs > max_error_ratio * max(1, hist + errs):
